@@ -9,7 +9,12 @@ a = [x for x in sys.argv[1:] if not x.startswith("--") and not x.isdigit()]
 M = Model()
 ctx = Ctx(M)
 f = ctx.member(a[0], a[1], a[2] if len(a) > 2 else "methods")
-ps = ctx.paths(f, a[0])
+if "--raw" in sys.argv:
+    from nixsa.px import explore, Config
+    cfg = Config(M, mode="raw"); cfg.compose = False
+    ps = explore(cfg, f, a[0], None, 20000)
+else:
+    ps = ctx.paths(f, a[0])
 print(len(ps), "paths")
 mx = int(sys.argv[sys.argv.index("--max") + 1]) if "--max" in sys.argv else 40
 for p in ps[:mx]:
